@@ -1,5 +1,13 @@
-import json,sys
+"""Writes the task text for a seeding sub-agent: seed_prompt.py <ID> [round]. From round 2 on, the one-line
+descriptions of the changes already kept for that property (seeded/<ID>-*/meta.json, field `change` only - nothing
+about the checks) are listed so that the new changes differ from them."""
+import json,sys,glob
 pid=sys.argv[1]
+rnd=int(sys.argv[2]) if len(sys.argv)>2 else 1
+earlier=[json.load(open(f))['change'] for f in sorted(glob.glob(f'/verif/seeded/{pid}-*/meta.json'))] if rnd>1 else []
+avoid=""
+if earlier:
+    avoid="\n\nEarlier rounds already produced the following changes for this property; yours must be in DIFFERENT mechanisms (different functions and a different kind of mistake), ideally touching parts of the statement or of the quantifier text that these do not touch:\n"+"".join(f"  - {c}\n" for c in earlier)
 for l in open('/verif/properties.jsonl'):
     p=json.loads(l)
     if p['id']==pid: break
@@ -10,6 +18,7 @@ Here is ONE semantic property that the project is supposed to satisfy (this reco
 
 {prop}
 
+{avoid}
 YOUR TASK: produce TWO different, independent changes to the project's source (each a small patch to files under src/ - not to tests, docs or Cargo files) such that, for each change:
   1. the project still compiles (`cargo build --offline` and `cargo build --offline --release`, no new warnings needed to be avoided but no errors);
   2. the ENTIRE existing test-suite still passes, unedited: `cargo test --workspace --no-fail-fast --offline` (run it; all test binaries must report 0 failed);
